@@ -90,16 +90,22 @@ _MARK = re.compile(r"#<(\d+)>;")
 
 
 def record(obj):
-    """serialize obj (simfile or chart) with the recorder: -> (list of component tuples, text, gaps)
-    gaps = the pieces of text written between/around the markers"""
-    del REC[:]
+    """serialize obj (simfile or chart) with the recorder: -> (list of component tuples, text, gaps, marker order)
+    gaps = the pieces of text written between/around the markers.  The parameters are read off the text itself: every
+    marker is looked up in REC, which is never reset here, so a serializer that legitimately reuses an earlier rendering
+    of an unchanged chart still denotes the right parameters (and a stale one denotes the old ones).  The returned text has
+    its markers renumbered in order of appearance, so that two serializations can be compared with ==."""
     out = io.StringIO()
     obj.serialize(out)
     text = out.getvalue()
-    n = len(REC)
-    idxs = [int(x) for x in _MARK.findall(text)]
+    raw = [int(x) for x in _MARK.findall(text)]
     gaps = _MARK.split(text)[0::2]
-    return [REC[i] for i in range(n)], text, gaps, idxs
+    if any(i >= len(REC) for i in raw):
+        return [], text, ["unknown marker"], [-1]
+    stream = [REC[i] for i in raw]
+    counter = iter(range(len(raw)))
+    norm = _MARK.sub(lambda m: "#<%d>;" % next(counter), text)
+    return stream, norm, gaps, list(range(len(stream)))
 
 
 def record_keep(obj):
